@@ -1,7 +1,8 @@
-(* Date.v — HTTP dates: the IMF-fixdate form of http.ParseTime and http.TimeFormat,
-   on Unix seconds (Z).  Go's parser is more liberal (case-insensitive names, one-digit hours,
-   fractional seconds, RFC 850 and ANSI C forms); those spellings are outside the modelled domain
-   and the generators of the correspondence run keep away from them (see DESIGN.md §2.9). *)
+(* Date.v — HTTP dates: http.ParseTime (IMF-fixdate, RFC 850 and asctime forms, each in its strict
+   spelling with the zone GMT) and http.TimeFormat, on Unix seconds (Z).  Go's parser is more liberal
+   (case-insensitive names, one-digit hours, fractional seconds, other zone abbreviations); those
+   spellings are outside the modelled domain and the generators of the correspondence run keep away
+   from them (see DESIGN.md §2.9). *)
 From HC Require Export Base.
 Open Scope Z_scope.
 
@@ -71,6 +72,64 @@ Definition parse_imf_fixdate (s : bytes) : option Z :=
         end
       else None
   | _ => None
+  end.
+
+(* ---- the two obsolete forms http.ParseTime also accepts (RFC 9110 §5.6.7), in their strict spellings ---- *)
+Definition long_day_names : list bytes :=
+  [bs "Sunday"; bs "Monday"; bs "Tuesday"; bs "Wednesday"; bs "Thursday"; bs "Friday"; bs "Saturday"].
+
+Definition civil_secs (y mo d h mi se : Z) : option Z :=
+  if (1 <=? d) && (d <=? days_in_month y mo) && (h <? 24) && (mi <? 60) && (se <? 60)
+  then Some (days_from_civil y mo d * 86400 + h * 3600 + mi * 60 + se)
+  else None.
+
+(* "02-Jan-06 15:04:05 GMT" after the weekday and ", " — 22 bytes; a two-digit year below 69 is 20yy, else 19yy (time.Parse) *)
+Definition parse_rfc850_tail (s : bytes) : option Z :=
+  match s with
+  | [d1; d2; da1; m1; m2; m3; da2; y1; y2; sp1; h1; h2; cl1; mi1; mi2; cl2; s1; s2; sp2; g; mm; t] =>
+      if (da1 =? 45) && (da2 =? 45) && (sp1 =? 32) && (sp2 =? 32) && (cl1 =? 58) && (cl2 =? 58)
+         && (g =? 71) && (mm =? 77) && (t =? 84)
+      then
+        match index_of [m1; m2; m3] month_names 1, num2 d1 d2, num2 y1 y2, num2 h1 h2, num2 mi1 mi2, num2 s1 s2 with
+        | Some mo, Some d, Some yy, Some h, Some mi, Some se =>
+            civil_secs (if yy <? 69 then 2000 + yy else 1900 + yy) mo d h mi se
+        | _, _, _, _, _, _ => None
+        end
+      else None
+  | _ => None
+  end.
+
+(* "Monday, 02-Jan-06 15:04:05 GMT" *)
+Definition parse_rfc850 (s : bytes) : option Z :=
+  match cut 44 s with
+  | Some (wd, 32 :: rest) => if amem_list wd long_day_names then parse_rfc850_tail rest else None
+  | _ => None
+  end.
+
+(* "Mon Jan _2 15:04:05 2006" — exactly 24 bytes, the day padded with a space; no zone: UTC *)
+Definition parse_asctime (s : bytes) : option Z :=
+  match s with
+  | [w1; w2; w3; sp1; m1; m2; m3; sp2; d1; d2; sp3; h1; h2; cl1; mi1; mi2; cl2; s1; s2; sp4; y1; y2; y3; y4] =>
+      if (sp1 =? 32) && (sp2 =? 32) && (sp3 =? 32) && (sp4 =? 32) && (cl1 =? 58) && (cl2 =? 58)
+         && amem_list [w1; w2; w3] day_names
+      then
+        match index_of [m1; m2; m3] month_names 1, num2 (if d1 =? 32 then 48 else d1) d2, num2 y1 y2, num2 y3 y4,
+              num2 h1 h2, num2 mi1 mi2, num2 s1 s2 with
+        | Some mo, Some d, Some yh, Some yl, Some h, Some mi, Some se => civil_secs (yh * 100 + yl) mo d h mi se
+        | _, _, _, _, _, _, _ => None
+        end
+      else None
+  | _ => None
+  end.
+
+(* http.ParseTime: the first of the three layouts that parses *)
+Definition parse_http_time (s : bytes) : option Z :=
+  match parse_imf_fixdate s with
+  | Some t => Some t
+  | None => match parse_rfc850 s with
+            | Some t => Some t
+            | None => parse_asctime s
+            end
   end.
 
 Definition two_digits (n : Z) : bytes := [48 + n / 10; 48 + n mod 10].
